@@ -226,7 +226,7 @@ func c10Run(j vs.Job) *vs.JobResult {
 		b, _ := json.Marshal(j.Replay.Detail)
 		var wp wParams
 		json.Unmarshal(b, &wp)
-		w, res := runWorld(wp, vs.Config{Trace: true}, j.Replay.Choices, nil, nil)
+		w, res := runWorld(wp, vs.Config{Trace: true, ClockChoice: p.Sched > 0}, j.Replay.Choices, j.Replay.Ns, nil)
 		v, o := c10Oracle(w, res)
 		r.Notes = append(r.Notes, res.Sched.Trace...)
 		r.Notes = append(r.Notes, fmt.Sprintf("outcome=%s stopAt=%v hit=%v srvDone=%v@%v cliDone=%v@%v clean=%v srvErr=%q said=%q exit=%q cfail=%q sfail=%q pre=%v dst=%v alive=%v", o, res.StopAt, res.StopHit, res.SrvDone, res.SrvDoneAt, res.CliDone, res.CliDoneAt, res.StopCleanTimeout,
